@@ -760,15 +760,55 @@ var specs = map[string]spec{
 func Run(id string) core.CheckFunc {
 	return func(c *core.Ctx) (*core.Outcome, error) {
 		sp := specs[id]
-		e, err := NewEngine(c.ID, sp.race > 0 || c.Replay != nil)
+		// C15 and C19 also drive servers regenerated from the repository's corpus (quick: a spread of 6, thorough: all)
+		corpus := 0
+		if id == "C15" || id == "C19" {
+			corpus = 6
+			if c.Tier == "thorough" {
+				corpus = -1
+			}
+		}
+		isCorpusReplay := false
+		if c.Replay != nil {
+			var probe struct {
+				Binary string `json:"binary"`
+			}
+			_ = json.Unmarshal(c.Replay.Scenario, &probe)
+			isCorpusReplay = strings.HasPrefix(probe.Binary, "corpus-")
+			if isCorpusReplay {
+				corpus = -1
+			} else {
+				corpus = 0
+			}
+		}
+		e, err := NewEngineCorpus(c.ID, sp.race > 0 || c.Replay != nil, corpus)
 		if err != nil {
 			return nil, err
 		}
 		defer e.S.Remove()
 		if c.Replay != nil {
+			if isCorpusReplay {
+				return e.replayCorpus(c, id, c.Replay.Scenario, strings.Contains(string(c.Replay.Scenario), `"corpus-race"`))
+			}
 			return e.replay(c, sp)
 		}
-		return e.check(c, sp)
+		out, err := e.check(c, sp)
+		if err != nil || corpus == 0 {
+			return out, err
+		}
+		vs, info, err := e.checkCorpus(c, id)
+		if err != nil {
+			return nil, err
+		}
+		out.Violations = append(out.Violations, vs...)
+		out.Evidence.Coverage["corpus_driver"] = info
+		if n, ok := info["runs"].(int); ok {
+			out.Evidence.Coverage["evaluations"] = out.Evidence.Coverage["evaluations"].(int) + n
+		}
+		if n, ok := info["distinct_schedules"].(int); ok {
+			out.Evidence.Coverage["distinct_nontrivial"] = out.Evidence.Coverage["distinct_nontrivial"].(int) + n
+		}
+		return out, nil
 	}
 }
 
